@@ -11,7 +11,7 @@ from . import sqlproxy as SP
 OPS_ALL = ["mk", "mk", "mk_child", "mk_child", "add", "set", "set", "set_parent", "bs_append", "bs_remove", "bs_replace", "tag_add", "tag_remove",
            "node_parent", "follow", "unfollow", "set_p", "k_rename", "h_doc", "delete", "expunge", "flush", "flush", "commit", "rollback",
            "begin_nested", "sp_commit", "sp_rollback", "close", "requery", "get", "lazy", "expire", "expire_all", "refresh",
-           "mut_data", "mut_items", "ext_update", "merge", "drop", "gc", "pickle_rt", "populate_existing"]
+           "mut_data", "mut_items", "ext_update", "merge", "drop", "gc", "pickle_rt", "populate_existing", "q_ops", "g_ops"]
 
 
 _ENGINES = {}
@@ -77,7 +77,7 @@ class Run:
         mod.plan = self.plan
         holder["run"] = self
         self.obs = sqlite3.connect(self.path, timeout=0, isolation_level=None)
-        for t in ("b_t", "nf", "r", "q", "h", "d", "bl", "p", "b", "a2", "a", "t", "node", "k"):
+        for t in ("b_t", "nf", "o", "g", "r", "q", "h", "d", "bl", "p", "b", "a2", "a", "t", "node", "k"):
             self.obs.execute("delete from %s" % t)
         self.session = None
         self.new_session()
@@ -156,10 +156,28 @@ class Run:
     def move_ok(self, child, new_parent):
         """R2: a *pending* child that is taken away from a delete-orphan parent is expunged on the spot (documented); attaching it to
         another parent in the same breath does not bring it back, so that move is not generated"""
-        if "delete-orphan" not in self.U["cfg"]["bs"] or OS.state_of(child) != "pending":
-            return True
+        if "delete-orphan" not in self.U["cfg"]["bs"] or OS.state_of(child) not in ("pending", "transient"):
+            return True      # (a transient child becomes pending - and is expunged again - in the middle of such a move)
         ok, cur = OS.loaded(child, "a")
         return (not ok) or cur is None or cur is new_parent
+
+    def link_pending(self, o):
+        """R1: the object has association rows (many-to-many) added and not yet flushed; deleting or orphaning it in the same flush is an
+        invalid final state (a row in the association table for a deleted row)"""
+        for an in OS.rel_attrs(self.U, o):
+            if OS.rel_of(self.U, o, an)["kind"] == "m2m" and OS.loaded(o, an)[0]:
+                if self.m["inspect"](o).attrs[an].history.added:
+                    return True
+        for x in self.entries():
+            xo = x["obj"]
+            for an in OS.rel_attrs(self.U, xo):
+                if xo is not o and OS.rel_of(self.U, xo, an)["kind"] == "m2m" and OS.loaded(xo, an)[0]:
+                    if any(y is o for y in self.m["inspect"](xo).attrs[an].history.added or ()):
+                        return True
+        return False
+
+    def orphans_ok(self, bs):
+        return "delete-orphan" not in self.U["cfg"]["bs"] or not any(self.link_pending(b) for b in bs)
 
     def member_ok(self, x):
         """R2: association changes that involve an object outside the session do not proceed - such members are left alone"""
@@ -221,6 +239,7 @@ class Run:
     def step(self, i, op):
         kind, a1, a2 = op[0], op[1], op[2]
         before = {e["label"]: OS.state_of(e["obj"]) for e in self.entries()}
+        self.before_states = {e["label"]: (OS.state_of(e["obj"]), self.in_session(e["obj"])) for e in self.entries()}
         self.deleted_in_op = set()
         del self.events[:]
         del self.sql[:]
@@ -348,7 +367,7 @@ class Run:
         return m
 
     def op_add(self, a1, a2):
-        e = self.pick(a1, lambda e: OS.state_of(e["obj"]) in ("transient", "detached") and e["cls"] not in ("D", "BL", "R") and not e.get("retired") and
+        e = self.pick(a1, lambda e: OS.state_of(e["obj"]) in ("transient", "detached") and e["cls"] not in ("D", "BL", "R", "O") and not e.get("retired") and
                       not (e["cls"] == "B" and "delete-orphan" in self.U["cfg"]["bs"] and OS.loaded(e["obj"], "a")[1] is None))
         if e is None:
             return "skip"
@@ -395,6 +414,8 @@ class Run:
             # replacing a many-to-one whose previous value is not loaded fires no removal on the old parent's side (no active_history):
             # delete-orphan and the backref then have nothing to work with.  Applications read the reference first; so does the harness.
             b["obj"].a
+        if target is None and not self.orphans_ok([b["obj"]]):
+            return "skip"
         before_members = self.members()
         b["obj"].a = target
         if target is not None and self.in_session(b["obj"]):
@@ -426,7 +447,24 @@ class Run:
             return "skip"
         lst = pa["obj"].bs
         b = lst[a2 % len(lst)]
-        if b in self.session.deleted or not self.member_ok(b):
+        how = (a2 // 8) % 8
+        if how >= 4:
+            # removal of several members at once: del of the whole attribute, slice deletion, clear(), pop()
+            gone = {4: list(lst), 5: list(lst[0:2]), 6: list(lst), 7: list(lst[-1:])}[how]
+            if any(x in self.session.deleted or not self.member_ok(x) for x in gone) or not self.orphans_ok(gone):
+                return "skip"
+            if how == 4:
+                del pa["obj"].bs
+            elif how == 5:
+                del lst[0:2]
+            elif how == 6:
+                lst.clear()
+            else:
+                lst.pop()
+            for x in gone:
+                self.track(x)
+            return "%d-=%s" % (pa["label"], {4: "del", 5: "slice", 6: "clear", 7: "pop"}[how])
+        if b in self.session.deleted or not self.member_ok(b) or not self.orphans_ok([b]):
             return "skip"
         lst.remove(b)
         return "%d-=%d" % (pa["label"], self.track(b)["label"])
@@ -450,7 +488,12 @@ class Run:
             return "skip"
         if a2 % 2 and len(pa["obj"].bs) >= 1:
             rest = pa["obj"].bs[1:]
-            pa["obj"].bs[0:1] = [x for x in new[:2] if x not in rest]        # slice assignment (an object is never put in twice)
+            repl = [x for x in new[:2] if x not in rest]
+            if not self.orphans_ok([x for x in pa["obj"].bs[0:1] if x not in repl]):
+                return "skip"
+            pa["obj"].bs[0:1] = repl        # slice assignment (an object is never put in twice)
+        elif not self.orphans_ok([x for x in pa["obj"].bs if x not in new]):
+            return "skip"
         else:
             pa["obj"].bs = new                 # whole-collection replacement
         self.check_add_cascade(pa["obj"], before_members)
@@ -463,6 +506,8 @@ class Run:
             return "skip"
         if not self.pair_ok(b["obj"], t["obj"]) or not self.pair_ok(t["obj"], b["obj"]):
             return "skip"
+        if "delete-orphan" in self.U["cfg"]["bs"] and OS.loaded(b["obj"], "a") == (True, None):
+            return "skip"      # R1: an orphan is deleted by the next flush; an association row added for it is an invalid final state
         if a2 % 2:
             if t["obj"] in b["obj"].tags:
                 return "skip"
@@ -478,6 +523,17 @@ class Run:
         if b is None:
             return "skip"
         t = b["obj"].tags[a2 % len(b["obj"].tags)]
+        how = (a2 // 8) % 8
+        if how >= 5:
+            if not all(self.member_ok(x) for x in b["obj"].tags):
+                return "skip"
+            if how == 5:
+                del b["obj"].tags
+            elif how == 6:
+                b["obj"].tags = []
+            else:
+                b["obj"].tags.clear()
+            return "%d!~all" % b["label"]
         if not self.member_ok(t):
             return "skip"
         if a2 % 2:
@@ -499,6 +555,16 @@ class Run:
         if n is None:
             return "skip"
         if a2 % 4 == 0:
+            how = (a2 // 4) % 4
+            if how == 0 and OS.loaded(n["obj"], "parent")[0]:
+                del n["obj"].parent
+                return "%d^del" % n["label"]
+            if how == 1 and OS.loaded(n["obj"], "children")[0] and all(self.member_ok(x) for x in n["obj"].children):
+                del n["obj"].children
+                return "%d.children del" % n["label"]
+            if how == 2 and all(self.member_ok(x) for x in n["obj"].children):
+                n["obj"].children = list(reversed(n["obj"].children))[:-1]      # replacement that keeps all but one, reordered
+                return "%d.children:=" % n["label"]
             n["obj"].parent = None
             return "%d^None" % n["label"]
         p = self.pick(a2, lambda e: e["cls"] == "Node" and self.usable(e) and e is not n)
@@ -534,6 +600,14 @@ class Run:
         if n is None:
             return "skip"
         q = n["obj"].follows[a2 % len(n["obj"].follows)]
+        if (a2 // 4) % 4 == 3:
+            if not all(self.member_ok(x) for x in n["obj"].follows):
+                return "skip"
+            if a2 % 2:
+                del n["obj"].follows
+            else:
+                n["obj"].follows[:] = []
+            return "%d!>all" % n["label"]
         if not self.member_ok(q):
             return "skip"
         if a2 % 2:
@@ -547,6 +621,15 @@ class Run:
         if pa is None:
             return "skip"
         if a2 % 3 == 0:
+            ok, cur = OS.loaded(pa["obj"], "p")
+            if ok and cur is not None and not self.member_ok(cur):
+                return "skip"
+            if (a2 // 3) % 3 == 1 and ok:
+                del pa["obj"].p
+                return "%d.p del" % pa["label"]
+            if (a2 // 3) % 3 == 2 and ok and cur is not None and OS.loaded(cur, "a")[0]:
+                del cur.a
+                return "%d.p.a del" % pa["label"]
             pa["obj"].p = None
             return "%d.p=None" % pa["label"]
         p = self.pick(a2, lambda e: e["cls"] == "P" and self.usable(e))
@@ -555,6 +638,20 @@ class Run:
         if not self.pair_ok(pa["obj"], p["obj"]) or not self.pair_ok(p["obj"], pa["obj"]):
             return "skip"
         before_members = self.members()
+        if not self.cfg.get("o2o_steal"):
+            # KF-C37-1: re-assigning a one-to-one member that another loaded owner still refers to does not update that previous owner
+            # (asserted by test_backref_mutations.py); unless the run opts in, the previous link is cleared explicitly first
+            owners = [x for x in self.entries(self.of("A", "A2")) if x["obj"] is not pa["obj"] and OS.loaded(x["obj"], "p")[1] is p["obj"]]
+            ok, cur_owner = OS.loaded(p["obj"], "a")
+            if ok and cur_owner is not None and cur_owner is not pa["obj"] and not any(x["obj"] is cur_owner for x in owners):
+                owners.append(self.by_id.get(id(cur_owner)) or {"obj": cur_owner, "retired": True})
+            ok, cur_p = OS.loaded(pa["obj"], "p")
+            if ok and cur_p is not None and cur_p is not p["obj"]:
+                owners.append(pa)
+            if any(not self.usable(x) for x in owners):
+                return "skip"
+            for x in owners:
+                x["obj"].p = None
         if a2 % 2:
             pa["obj"].p = p["obj"]
         else:
@@ -585,6 +682,93 @@ class Run:
             if self.in_session(h["obj"]):
                 self.check_add_cascade(h["obj"], before_members)
         return h["label"]
+
+    def op_g_ops(self, a1, a2):
+        """dictionary collection G.opts (attribute_keyed_dict on O.key, all+delete-orphan, backref O.g)"""
+        C = self.U["classes"]
+        how = a2 % 12
+        g = self.pick(a1, lambda e: e["cls"] == "G" and self.usable(e))
+        if how == 0 or g is None:
+            if len(self.entries(self.of("G"))) >= 3:
+                return "skip"
+            go = C["G"](id=self._newid("G"), note="g%d" % a1)
+            for j in range(1 + a1 % 3):
+                o = C["O"](id=self._newid("O"), key="k%d" % j, val=a1 + j)
+                self.track(o, "O")
+                go.opts[o.key] = o
+            self.track(go, "G")
+            before_members = self.members()
+            self.session.add(go)
+            self.check_add_cascade(go, before_members)
+            return "G"
+        go = g["obj"]
+        d = go.opts
+        if not all(self.member_ok(x) for x in d.values()):
+            return "skip"
+        keys = sorted(d)
+        key = keys[a1 % len(keys)] if keys else None
+        before_members = self.members()
+        if how in (1, 2):            # new member under a new or an existing key (replacement)
+            k = "k%d" % (a1 % 4)
+            o = C["O"](id=self._newid("O"), key=k, val=a2)
+            self.track(o, "O")
+            if how == 1:
+                d[k] = o
+            else:
+                d.set(o) if hasattr(d, "set") else d.__setitem__(k, o)
+            what = "[%s]=new" % k
+        elif how == 3 and key is not None:
+            d.pop(key)
+            what = "pop(%s)" % key
+        elif how == 4 and key is not None:
+            del d[key]
+            what = "del[%s]" % key
+        elif how == 5 and keys:
+            d.popitem()
+            what = "popitem"
+        elif how == 6:
+            d.clear()
+            what = "clear"
+        elif how == 7:
+            o = C["O"](id=self._newid("O"), key="u%d" % (a1 % 2), val=a2)
+            self.track(o, "O")
+            d.update({o.key: o})
+            what = "update"
+        elif how == 8:
+            o = C["O"](id=self._newid("O"), key="k%d" % (a1 % 4), val=a2)
+            self.track(o, "O")
+            got = d.setdefault(o.key, o)
+            if got is not o:
+                self.by_id[id(o)]["retired"] = True
+            what = "setdefault"
+        elif how == 9 and key is not None:
+            d[key].val = a2          # change of a member's column
+            what = "[%s].val" % key
+        elif how == 10 and key is not None:
+            # move a member to another G through the many-to-one side
+            g2 = self.pick(a1 + 1, lambda e: e["cls"] == "G" and self.usable(e) and e is not g and OS.state_of(e["obj"]) != "transient")
+            if g2 is None or d[key].key in g2["obj"].opts or OS.state_of(d[key]) == "pending":
+                return "skip"
+            if not all(self.member_ok(x) for x in g2["obj"].opts.values()):
+                return "skip"
+            d[key].g = g2["obj"]
+            what = "move(%s)" % key
+        elif how == 11:
+            new = {}
+            for j in range(a1 % 3):
+                o = C["O"](id=self._newid("O"), key="r%d" % j, val=a2)
+                self.track(o, "O")
+                new[o.key] = o
+            keep = [x for x in d.values()][: a1 % 2]
+            for x in keep:
+                new[x.key] = x
+            go.opts = new
+            what = "replace"
+        else:
+            return "skip"
+        if self.in_session(go):
+            self.check_add_cascade(go, before_members)
+        return "%d.opts %s" % (g["label"], what)
 
     def op_q_ops(self, a1, a2):
         """unidirectional delete-orphan one-to-many Q.rs"""
@@ -652,15 +836,22 @@ class Run:
                     return "skip"
                 if xo is not o and OS.state_of(xo) in ("pending", "transient"):
                     cur = OS.loaded(xo, an)[1]
-                    members = list(cur) if isinstance(cur, list) else ([cur] if cur is not None else [])
+                    members = OS.members(cur)
                     if any(y is o for y in members):
                         return "skip"
         for an in OS.rel_attrs(self.U, o):
             ok, v = OS.loaded(o, an)
-            members = (list(v) if isinstance(v, list) else ([v] if v is not None else [])) if ok else []
+            members = OS.members(v) if ok else []
             if any(OS.state_of(k) in ("pending", "transient", "deleted", "detached") for k in members):
                 # (a member already deleted in this transaction would be cascaded to - and deleted - a second time; with
                 # expire_on_commit=False a stale collection can still hold a member whose row a committed transaction deleted)
+                return "skip"
+        doomed = [o] + self.closure(o, "delete")
+        for x in self.entries():
+            xo = x["obj"]
+            if self.link_pending(xo) and (any(xo is d for d in doomed) or any(
+                    OS.rel_of(self.U, xo, an)["kind"] == "m2o" and any(OS.loaded(xo, an)[1] is d for d in doomed)
+                    for an in OS.rel_attrs(self.U, xo))):
                 return "skip"
         self.session.delete(o)
         if a2 % 3 == 0 and e["cls"] == "Node":
@@ -702,23 +893,24 @@ class Run:
             xo = x["obj"]
             for an in OS.rel_attrs(self.U, xo):
                 ok, v = OS.loaded(xo, an)
-                members = (list(v) if isinstance(v, list) else ([v] if v is not None else [])) if ok else []
+                members = OS.members(v) if ok else []
                 for y in members:
                     if (id(xo) in group) != (id(y) in group):
                         return "skip"
         tabs = self.prev_tables
         pk = OS.pk_of(o)
         own = tabs[self.tab_of(e["cls"])].get(pk) if pk is not None else None
-        fkcols = {"b": ["a_id"], "p": ["a_id"], "node": ["parent_id"], "r": ["q_id"], "h": ["d_id"], "d": ["bl_id"]}.get(self.tab_of(e["cls"]), [])
+        fkcols = {"b": ["a_id"], "p": ["a_id"], "node": ["parent_id"], "r": ["q_id"], "h": ["d_id"], "d": ["bl_id"], "o": ["g_id"]}.get(self.tab_of(e["cls"]), [])
         if own is not None and any(own[self.U["tables"][self.tab_of(e["cls"])].index(c)] is not None for c in fkcols):
             return "skip"
         if pk is not None and any(pk in (r[0], r[1]) for t2 in ("b_t", "nf") for r in tabs[t2].values()
                                   if (t2 == "nf" and e["cls"] == "Node") or (t2 == "b_t" and e["cls"] in ("B", "T"))):
             return "skip"
-        if e["cls"] in ("D", "BL", "R", "B", "P") or (pk is not None and any(
-                row[cols.index(col)] == pk for (t2, col) in (("b", "a_id"), ("p", "a_id"), ("node", "parent_id"), ("r", "q_id"), ("h", "d_id"), ("d", "bl_id"))
+        if e["cls"] in ("D", "BL", "R", "B", "P", "O") or (pk is not None and any(
+                row[cols.index(col)] == pk for (t2, col) in (("b", "a_id"), ("p", "a_id"), ("node", "parent_id"), ("r", "q_id"), ("h", "d_id"), ("d", "bl_id"),
+                                                             ("o", "g_id"))
                 for cols in [self.U["tables"][t2]] for row in tabs[t2].values()
-                if {"b": ("A", "A2"), "p": ("A", "A2"), "node": ("Node",), "r": ("Q",), "h": ("D",), "d": ("BL",)}[t2].__contains__(e["cls"]))):
+                if {"b": ("A", "A2"), "p": ("A", "A2"), "node": ("Node",), "r": ("Q",), "h": ("D",), "d": ("BL",), "o": ("G",)}[t2].__contains__(e["cls"]))):
             return "skip"       # rows elsewhere still refer to it: unloaded relationships would tie the detached object to the session
         self.session.expunge(o)
         for x in exp:
@@ -739,7 +931,7 @@ class Run:
                 ok, v = OS.loaded(x, an)
                 if not ok or v is None:
                     continue
-                for y in (list(v) if r["kind"] in ("o2m", "m2m") else [v]):
+                for y in OS.members(v):
                     if id(y) not in seen:
                         seen.add(id(y))
                         out.append(y)
@@ -775,6 +967,10 @@ class Run:
             # delete-orphan: a persistent object that lost its delete-orphan parent and was not re-associated is deleted at flush
             if e["cls"] == "B" and "delete-orphan" in self.U["cfg"]["bs"] and st == "persistent":
                 ok, par = OS.loaded(o, "a")
+                if ok and par is None and o not in self.session.deleted:
+                    exp["orphans"].append(o)
+            if e["cls"] == "O" and st == "persistent":
+                ok, par = OS.loaded(o, "g")
                 if ok and par is None and o not in self.session.deleted:
                     exp["orphans"].append(o)
             if e["cls"] == "D" and st == "persistent":
@@ -849,9 +1045,17 @@ class Run:
                 self.V("C33", "persistent_without_row", "after rollback %s #%s is persistent in the session but has no row" % (e["cls"], pk))
             if st in ("pending", "deleted"):
                 self.V("C33", "state_survived_rollback", "after rollback %s is still %s" % (e["cls"], st))
+        for e in self.entries():
+            o = e["obj"]
+            was = getattr(self, "before_states", {}).get(e["label"])
+            if was and was[1] and was[0] in ("pending", "persistent") and not self.in_session(o) and OS.state_of(o) == "detached":
+                pk = OS.pk_of(o)
+                if pk is not None and pk not in now[self.tab_of(e["cls"])]:
+                    self.V("C33", "added_object_not_transient_after_rollback", "%s #%s was added in the rolled back transaction (it has no "
+                           "row) but is 'detached', carrying an identity key, instead of transient" % (e["cls"], pk))
 
     def tab_of(self, cls):
-        return {"A": "a", "A2": "a", "B": "b", "T": "t", "Node": "node", "K": "k", "P": "p", "BL": "bl", "D": "d", "H": "h", "Q": "q", "R": "r"}[cls]
+        return {"A": "a", "A2": "a", "B": "b", "T": "t", "Node": "node", "K": "k", "P": "p", "BL": "bl", "D": "d", "H": "h", "Q": "q", "R": "r", "G": "g", "O": "o"}[cls]
 
     def op_begin_nested(self, a1, a2):
         if len(self.sp_stack) >= 3:
@@ -923,12 +1127,13 @@ class Run:
 
     # ---- loading
     def op_requery(self, a1, a2):
-        names = ["A", "B", "T", "Node", "K", "P", "H"]
+        names = ["A", "B", "T", "Node", "K", "P", "H", "G", "O", "Q"]
         cn = names[a1 % len(names)]
         C = self.U["classes"][cn]
         pend_before = [e for e in self.entries() if self.in_session(e["obj"]) and OS.state_of(e["obj"]) == "pending"]
+        i0 = len(self.sql)
         res = self.session.execute(self.m["select"](C)).scalars().all()
-        self.check_autoflush("query", pend_before)
+        self.check_autoflush("query", pend_before, i0)
         now = self.probe()
         pks = sorted(OS.pk_of(o) for o in res)
         want = sorted(now[self.tab_of(cn)].keys())
@@ -940,9 +1145,18 @@ class Run:
         self.prev_tables = now
         return "%s:%d" % (cn, len(res))
 
-    def check_autoflush(self, what, pend_before):
+    def check_autoflush(self, what, pend_before, i0=0):
         if not self.cfg.get("autoflush", True):
             return
+        if not any(st.lstrip().upper().startswith("SELECT") for st, _p in self.sql[i0:]):
+            return      # the read was answered from memory (identity map, NULL foreign key): nothing was "executed", nothing to flush for
+        # C47 "exactly as if flush had been called first": an explicit flush right after the read has nothing left to write
+        n = len(self.sql)
+        self.session.flush()
+        dml = [st for st, _p in self.sql[n:] if st.lstrip().split(" ", 1)[0] in ("INSERT", "UPDATE", "DELETE")]
+        if dml:
+            self.V("C47", "read_did_not_see_pending_changes", "%s with autoflush on emitted SQL but left changes unflushed: a flush right "
+                   "after it wrote %s" % (what, "; ".join(d[:50] for d in dml[:3])))
         left = [e for e in pend_before if self.in_session(e["obj"]) and OS.state_of(e["obj"]) == "pending"]
         if left or self.session.deleted:
             self.V("C47", "autoflush_skipped", "%s with autoflush on left %d pending / %d deleted objects unflushed"
@@ -971,7 +1185,7 @@ class Run:
         if not present and OS.state_of(e["obj"]) != "pending":
             absent_in_map = self.m["inspect"](e["obj"]).key not in self.session.identity_map if self.m["inspect"](e["obj"]).key else True
             if absent_in_map:
-                self.check_autoflush("get of an absent identity", pend_before)
+                self.check_autoflush("get of an absent identity", pend_before, 0)
         return "%s#%s" % (e["cls"], pk)
 
     def op_lazy(self, a1, a2):
@@ -981,11 +1195,14 @@ class Run:
         attrs = OS.rel_attrs(self.U, e["obj"])
         an = attrs[a2 % len(attrs)]
         was_loaded = OS.loaded(e["obj"], an)[0]
+        if not was_loaded and not self.cfg.get("autoflush", True) and (self.session.new or self.session.dirty or self.session.deleted):
+            return "skip"      # R3: with autoflush off a load shows the last flushed state, not the pending changes (documented)
         pend_before = [x for x in self.entries() if self.in_session(x["obj"]) and OS.state_of(x["obj"]) == "pending"]
+        i0 = len(self.sql)
         v = getattr(e["obj"], an)
         if not was_loaded:
-            self.check_autoflush("lazy load", pend_before)
-        for o in (list(v) if isinstance(v, list) else ([v] if v is not None else [])):
+            self.check_autoflush("lazy load", pend_before, i0)
+        for o in OS.members(v):
             self.check_same_identity(o, "lazy load")
         return "%d.%s" % (e["label"], an)
 
@@ -1252,7 +1469,7 @@ class Run:
                     ok, v = OS.loaded(o, an)
                     if ok:
                         t2, col = r["fk"]
-                        kids = (list(v) if r["kind"] == "o2m" else ([v] if v is not None else []))
+                        kids = OS.members(v)
                         if any(OS.state_of(k) == "detached" or (OS.state_of(k) in ("persistent", "pending") and not self.in_session(k)) for k in kids):
                             continue       # an expunged object stays in the in-memory collection while its row lives on: nothing to compare
                         want = sorted(OS.pk_of(k) for k in kids if OS.state_of(k) == "persistent" and self.in_session(k))
@@ -1280,7 +1497,7 @@ class Run:
             if pk is not None:
                 known[self.tab_of(e["cls"])].add(pk)
         # rows that belong to no object of the session: untouched
-        for t in ("a", "b", "t", "node", "k", "p", "bl", "d", "h", "q", "r"):
+        for t in ("a", "b", "t", "node", "k", "p", "bl", "d", "h", "q", "r", "g", "o"):
             for pk, row in prev[t].items():
                 if pk in owned[t]:
                     continue
@@ -1292,7 +1509,7 @@ class Run:
                     # FK nulling caused by the delete of the referenced row is the documented exception
                     cols = U["tables"][t]
                     diffs = [c for j, c in enumerate(cols) if row[j] != now[t][pk][j]]
-                    fkcols = {"b": "a_id", "p": "a_id", "node": "parent_id"}
+                    fkcols = {"b": "a_id", "p": "a_id", "node": "parent_id", "o": "g_id"}
                     if diffs == [fkcols.get(t)] and now[t][pk][cols.index(diffs[0])] is None:
                         continue
                     self.V("C30", "unrelated_row_changed", "row %s#%s, which belongs to no object of the session, changed during %s: %s -> %s"
@@ -1304,8 +1521,9 @@ class Run:
     def check_orphans(self, exp, now):
         for o in exp["orphans"]:
             st = OS.state_of(o)
-            ok, par = OS.loaded(o, "a") if type(o).__name__ == "B" else (True, None)
-            if type(o).__name__ == "B" and ok and par is not None:
+            back = {"B": "a", "O": "g"}.get(type(o).__name__)
+            ok, par = OS.loaded(o, back) if back else (True, None)
+            if back and ok and par is not None:
                 continue
             pk = OS.pk_of(o)
             tab = self.tab_of(type(o).__name__)
@@ -1325,6 +1543,9 @@ class Run:
         for pk, row in now["r"].items():
             if row[1] is None:
                 self.V("C39", "orphan_row_remains", "r#%s has no parent row after flush although Q.rs is delete-orphan" % pk)
+        for pk, row in now["o"].items():
+            if row[1] is None:
+                self.V("C39", "orphan_row_remains", "o#%s has no parent row after flush although G.opts is delete-orphan" % pk)
         held = {row[1] for row in now["h"].values()}
         for pk in now["d"]:
             if pk not in held:
@@ -1376,7 +1597,7 @@ class Run:
         now = self.probe(committed=True)
         S = self.m["Session"]
         with S(self.engine) as s2:
-            for cn, tab in (("A", "a"), ("B", "b"), ("T", "t"), ("Node", "node"), ("K", "k"), ("P", "p"), ("H", "h")):
+            for cn, tab in (("A", "a"), ("B", "b"), ("T", "t"), ("Node", "node"), ("K", "k"), ("P", "p"), ("H", "h"), ("G", "g"), ("O", "o")):
                 objs = s2.execute(self.m["select"](self.U["classes"][cn])).scalars().all()
                 got = sorted(OS.pk_of(o) for o in objs)
                 if got != sorted(now[tab]):
@@ -1393,6 +1614,10 @@ class Run:
                         f_want = sorted(r[1] for r in now["nf"].values() if r[0] == o.id)
                         if sorted(n.id for n in o.follows) != f_want:
                             self.V("C30", "reload_differs", "reloaded Node #%s.follows differ from nf" % o.id)
+                    if cn == "G":
+                        want = {r[3]: pk2 for pk2, r in now["o"].items() if r[1] == o.id}
+                        if {k: v.id for k, v in o.opts.items()} != want:
+                            self.V("C30", "reload_differs", "reloaded G #%s.opts is %s, rows say %s" % (o.id, {k: v.id for k, v in o.opts.items()}, want))
                     if cn == "A":
                         row = now["a"][o.id]
                         if type(o).__name__ != ("A2" if row[2] == "a2" else "A"):
@@ -1463,7 +1688,7 @@ class Run:
                 ok, v = OS.loaded(o, an)
                 if not ok:
                     continue
-                items = list(v) if r["kind"] in ("o2m", "m2m") else ([v] if v is not None else [])
+                items = OS.members(v)
                 for y in items:
                     ey = self.by_id.get(id(y))
                     if ey is None or not self.usable(ey):
@@ -1472,7 +1697,7 @@ class Run:
                     if not ok2:
                         continue
                     rk = OS.rel_of(U, y, r["rev"])["kind"]
-                    good = (o in back) if rk in ("o2m", "m2m") else (back is o)
+                    good = any(z is o for z in OS.members(back)) if rk in ("o2m", "m2m") else (back is o)
                     if not good:
                         self.V("C37", "backref_out_of_sync", "%s.%s contains/refers to a %s whose %s does not point back (after %s)"
                                % (e["cls"], an, ey["cls"], r["rev"], kind), op=i)
@@ -1493,6 +1718,16 @@ class Run:
             if im is not None and im is not o and OS.state_of(o) == "persistent":
                 self.V("C34", "identity_map_holds_other_object", "the identity map holds a different object for %s than the persistent one "
                        "the application uses (after %s)" % (key[1:2], kind), op=i)
+
+        held = {}
+        for key, o in list(self.session.identity_map.items()):
+            if self.m["inspect"](o).key != key:
+                self.V("C34", "identity_map_entry_under_foreign_key", "the identity map lists an object under %s whose own identity is %s "
+                       "(after %s)" % (key[1:2], (self.m["inspect"](o).key or (None, None))[1:2], kind), op=i)
+            if id(o) in held:
+                self.V("C34", "object_under_two_identities", "one object is registered under identities %s and %s (after %s)"
+                       % (held[id(o)][1:2], key[1:2], kind), op=i)
+            held[id(o)] = key
 
     # ---- history (C36)
     def collect_history(self):
@@ -1527,7 +1762,59 @@ class Run:
                     self.V("C36", "history_is_not_net_change", "%s #%s.%s: committed %r, current %r, but history is added=%s unchanged=%s deleted=%s"
                            % (e["cls"], pk, an, dbv, cur, list(h.added), list(h.unchanged), list(h.deleted)))
                 out.append((tab, pk, an, cur != dbv, known_orig))
+            self.check_rel_history(e, o, pk)
         return out
+
+    def check_rel_history(self, e, o, pk):
+        """C36 for relationship attributes: added + unchanged is the current value, unchanged + deleted is the committed value (the rows as
+        of the last flush), the three parts are disjoint"""
+        insp = self.m["inspect"]
+        tabs = self.prev_tables
+        for an in OS.rel_attrs(self.U, o):
+            r = OS.rel_of(self.U, o, an)
+            ok, v = OS.loaded(o, an)
+            if not ok:
+                continue
+            h = insp(o).attrs[an].history
+            cur = OS.members(v)
+            parts = [[x for x in (part or ()) if x is not None] for part in (h.added, h.unchanged, h.deleted)]
+            everyone = cur + parts[2]
+            if any(not self.in_session(x) or OS.state_of(x) not in ("persistent", "pending") for x in everyone):
+                continue        # stale members (detached / deleted elsewhere / never added): R2 territory, judged by C39 / C33
+            ids = [[id(x) for x in part] for part in parts]
+            desc = lambda: "added=%s unchanged=%s deleted=%s" % tuple([OS.pk_of(x) for x in part] for part in parts)
+            if sorted(ids[0] + ids[1]) != sorted(id(x) for x in cur) or set(ids[2]) & set(ids[0] + ids[1]) or set(ids[0]) & set(ids[1]):
+                self.V("C36", "relationship_history_is_not_net_change", "%s #%s.%s currently holds %s but its history is %s"
+                       % (e["cls"], pk, an, [OS.pk_of(x) for x in cur], desc()))
+                continue
+            if r["kind"] == "m2m":
+                t2, own, oth = r["assoc"]
+                cols = self.U["tables"][t2]
+                committed = sorted(rr[cols.index(oth)] for rr in tabs[t2].values() if rr[cols.index(own)] == pk)
+            elif r["kind"] in ("o2m", "o2o"):
+                t2, col = r["fk"]
+                cols = self.U["tables"][t2]
+                committed = sorted(k for k, rr in tabs[t2].items() if rr[cols.index(col)] == pk)
+            else:
+                t2, col = r["fk"]
+                row = tabs[t2].get(pk)
+                if row is None:
+                    continue
+                fk = row[self.U["tables"][t2].index(col)]
+                committed = [fk] if fk is not None else []
+            was = sorted(OS.pk_of(x) for x in parts[1] + parts[2])
+            if any(p is None for p in was):
+                self.V("C36", "relationship_history_is_not_net_change", "%s #%s.%s reports a member without identity as unchanged/deleted: %s"
+                       % (e["cls"], pk, an, desc()))
+                continue
+            if r["kind"] == "m2o":
+                # without active history the previous value of a replaced many-to-one may be unknown (not loaded): 'deleted' may be empty
+                good = set(was) <= set(committed) and (not parts[1] or was == committed)
+            else:
+                good = was == committed
+            if not good:
+                self.V("C36", "relationship_history_is_not_net_change", "%s #%s.%s: the rows of the last flush hold %s, but unchanged+deleted "
+                       "of the history is %s (%s)" % (e["cls"], pk, an, committed, was, desc()))
 
     def check_history_vs_updates(self, hist):
         """C36: a flush persists exactly the net difference: no UPDATE sets a column whose value did not change"""
